@@ -203,7 +203,11 @@ Definition hole_of (sch : schema) (st : sty) : option piece :=
   match s_ty st with
   | TStr => Some (if s_json st then ValHole else StrHole)
   | TInt _ | TFloat => Some NumHole
-  | TNamed n => if is_named_int sch n then (if has_stringer sch n then Some StrHole else Some NumHole) else None
+  | TNamed n => if is_named_int sch n then (if has_stringer sch n then Some StrHole else Some NumHole)
+               else match tentry_of sch n with
+                    | Some (mkTentry DOpaque _) => Some StrHole      (* time.Time printed by its String method *)
+                    | _ => None
+                    end
   | _ => None
   end.
 
